@@ -13,9 +13,7 @@
 #ifndef VERIF_OBJALLOC_H
 #define VERIF_OBJALLOC_H
 
-struct kit_f_hdr { sexp_tag_t tag; char markedp; unsigned int immutablep:1; unsigned int freep:1;
-  unsigned int brokenp:1; unsigned int syntacticp:1; unsigned int copyonwritep:1; };
-_Static_assert(sizeof(struct kit_f_hdr) == offsetof(struct sexp_struct, value), "header is one word");
+/* struct kit_f_hdr: defined in prelude.h (R14) */
 #define KIT_HDR struct kit_f_hdr h;
 #define KIT_M(kind) __typeof__(((sexp)0)->value.kind)
 
